@@ -41,6 +41,11 @@ Section AList.
     | [] => []
     | (k', v) :: m' => if keqb k' k then adel m' k else (k', v) :: adel m' k
     end.
+  Fixpoint aupd (m : list (K * V)) (k : K) (f : V -> V) : list (K * V) :=
+    match m with
+    | [] => []
+    | (k', v) :: m' => if keqb k' k then (k', f v) :: m' else (k', v) :: aupd m' k f
+    end.
   Fixpoint afind (m : list (K * V)) (k : K) : option V :=
     match m with
     | [] => None
@@ -229,16 +234,11 @@ Section Model.
        s_denom := s_denom s; s_bank := s_bank s; s_supply := s_supply s; s_blocked := s_blocked s;
        s_send_default := s_send_default s; s_send := s_send s; s_accts := a; s_mtok := s_mtok s;
        s_ext := s_ext s |}.
-  Definition set_mtok (s : state) (m : list (Z * std_token)) : state :=
+  Definition set_tokens (s : state) (tk : list (Z * std_token) * X) : state :=
     {| s_params := s_params s; s_evm_call := s_evm_call s; s_pairs := s_pairs s; s_erc20 := s_erc20 s;
        s_denom := s_denom s; s_bank := s_bank s; s_supply := s_supply s; s_blocked := s_blocked s;
-       s_send_default := s_send_default s; s_send := s_send s; s_accts := s_accts s; s_mtok := m;
-       s_ext := s_ext s |}.
-  Definition set_ext (s : state) (x : X) : state :=
-    {| s_params := s_params s; s_evm_call := s_evm_call s; s_pairs := s_pairs s; s_erc20 := s_erc20 s;
-       s_denom := s_denom s; s_bank := s_bank s; s_supply := s_supply s; s_blocked := s_blocked s;
-       s_send_default := s_send_default s; s_send := s_send s; s_accts := s_accts s; s_mtok := s_mtok s;
-       s_ext := x |}.
+       s_send_default := s_send_default s; s_send := s_send s; s_accts := s_accts s; s_mtok := fst tk;
+       s_ext := snd tk |}.
   Definition set_registry (s : state) (p : list (bytes * pair)) (e : list (Z * bytes)) (d : list (bytes * bytes)) : state :=
     {| s_params := s_params s; s_evm_call := s_evm_call s; s_pairs := p; s_erc20 := e;
        s_denom := d; s_bank := s_bank s; s_supply := s_supply s; s_blocked := s_blocked s;
@@ -251,22 +251,32 @@ Section Model.
        s_ext := s_ext s |}.
 
   (** ** EVM *)
+  (** The token contracts: those deployed by the module (semantics [std_call], role holder = the module) and
+      everything else (the oracle). *)
+  Definition tokens := (list (Z * std_token) * X)%type.
+  Definition s_tokens (s : state) : tokens := (s_mtok s, s_ext s).
+
   Definition find_mtok (s : state) (c : Z) : option std_token := afind Z.eqb (s_mtok s) c.
 
   (** GetAccountWithoutBalance(erc20) != nil && IsContract() *)
   Definition is_contract (s : state) (c : Z) : bool :=
     match find_mtok s c with Some _ => true | None => xcontract (s_ext s) c end.
 
+  (** one message call executed by the EVM; a reverted call leaves no trace *)
+  Definition tok_exec (tk : tokens) (c caller : Z) (cl : call) : tokens * cres :=
+    match afind Z.eqb (fst tk) c with
+    | Some t => let '(t', r) := std_call MODULE t caller cl in
+                if cr_ok r then ((aset (fst tk) c t', snd tk), r) else (tk, cfail)
+    | None => let '(x', r) := xcall (snd tk) c caller cl in
+              if cr_ok r then ((fst tk, x'), r) else (tk, cfail)
+    end.
+
   (** CallEVMWithData(from = caller, contract, data) with commit: GetSequence(caller) fails for an address
-      without account; ApplyMessage fails when calls are disabled; a reverted call leaves no trace. *)
+      without account; ApplyMessage fails when calls are disabled. *)
   Definition evm_call (s : state) (c caller : Z) (cl : call) : state * cres :=
     if negb (zmem caller (s_accts s)) || negb (s_evm_call s) then (s, cfail) else
-    match find_mtok s c with
-    | Some t => let '(t', r) := std_call MODULE t caller cl in
-                if cr_ok r then (set_mtok s (aset (s_mtok s) c t'), r) else (s, cfail)
-    | None => let '(x', r) := xcall (s_ext s) c caller cl in
-              if cr_ok r then (set_ext s x', r) else (s, cfail)
-    end.
+    let '(tk', r) := tok_exec (s_tokens s) c caller cl in
+    if cr_ok r then (set_tokens s tk', r) else (s, cfail).
 
   (** keeper.balanceOf: nil (None) when the call fails or the return data does not decode *)
   Definition balance_of (s : state) (c a : Z) : state * option Z :=
@@ -508,7 +518,7 @@ Section Model.
     | OBankSend from to d a => if from =? MODULE then s else fst (bank_send s from to d a)
     | OToggle id =>
         match get_pair s id with
-        | Some p => set_registry s (aset (s_pairs s) id (toggle_pair p)) (s_erc20 s) (s_denom s)
+        | Some _ => set_registry s (aupd bytes_eqb (s_pairs s) id toggle_pair) (s_erc20 s) (s_denom s)
         | None => s
         end
     | OFlags p e sd sl => set_flags s p e sd sl
@@ -522,3 +532,42 @@ Arguments s_params {X}. Arguments s_evm_call {X}. Arguments s_pairs {X}. Argumen
 Arguments s_denom {X}. Arguments s_bank {X}. Arguments s_supply {X}. Arguments s_blocked {X}.
 Arguments s_send_default {X}. Arguments s_send {X}. Arguments s_accts {X}. Arguments s_mtok {X}.
 Arguments s_ext {X}.
+Arguments set_bank {X}.
+Arguments set_supply {X}.
+Arguments set_accts {X}.
+Arguments set_tokens {X}.
+Arguments s_tokens {X}.
+Arguments tok_exec {X}.
+Arguments set_registry {X}.
+Arguments set_flags {X}.
+Arguments find_mtok {X}.
+Arguments is_contract {X}.
+Arguments evm_call {X}.
+Arguments balance_of {X}.
+Arguments get_balance {X}.
+Arguments sub_coins {X}.
+Arguments add_coins {X}.
+Arguments ensure_acct {X}.
+Arguments send_coins {X}.
+Arguments send_module_to_account {X}.
+Arguments mint_coins {X}.
+Arguments burn_coins {X}.
+Arguments send_enabled {X}.
+Arguments get_erc20_map {X}.
+Arguments get_denom_map {X}.
+Arguments token_pair_id {X}.
+Arguments get_pair {X}.
+Arguments delete_pair {X}.
+Arguments minting_enabled {X}.
+Arguments convert_coin_native_coin {X}.
+Arguments convert_erc20_native_coin {X}.
+Arguments convert_erc20_native_token {X}.
+Arguments convert_coin_native_erc20 {X}.
+Arguments convert_coin {X}.
+Arguments convert_erc20 {X}.
+Arguments handle {X}.
+Arguments deliver {X}.
+Arguments token_call {X}.
+Arguments bank_send {X}.
+Arguments step {X}.
+Arguments run {X}.
